@@ -44,11 +44,30 @@ CHECKS["C14"] = dict(
           "on the real registry; after every assertion relations and fields are compared with the model's facts, a final "
           "domain-less audit query checks that no instance grew a second node, and the H1 event trace of every replay is "
           "validated against SymbolGraph_Trace.tla (index recycling, relation index, 'relation between live instances not "
-          "recorded', 'second node for a registered instance')."),
+          "recorded', 'second node for a registered instance'). Prefix x suffix: Ontology.tla behaviours (incl. the CEO role) "
+          "are run after a randomly ordered earlier population of the same shape lived, was related and died (node indices "
+          "recycled); every step must equal the closure."),
     design_ref="DESIGN.md §4 C14",
     note=("Trusted: TLC, CPython refcounting with gc disabled. Node-index reuse is forced by the histories; address reuse "
           "cannot be forced from Python (the evidence counts how often it was observed)."),
     technique="TLA+ registry model checked with TLC; TLC-enumerated prefix/suffix histories replayed on the real SymbolGraph; H1 event traces validated against the trace spec",
+)
+
+CHECKS["C15"] = dict(
+    engine="Ontology",
+    category="model_checking",
+    text=("Ontology.tla: Closure(asserted) (least fixpoint of sub-property / role-taker sub-property / inverse / transitive "
+          "rules) against AddRel, the recursion of add_to_graph that stops at existing edges; TLC checks edges = Closure for "
+          "every order of up to 4 assertions on the university model and 3 on the /verif family model and refutes four "
+          "deviation switches (transitive expansion only for asserted relations, one direction only, no inverse of inferred, "
+          "direct super-property only). Every 3-assertion behaviour (sampled in quick) is replayed on real instances in four "
+          "write forms; after every step relations() and all managed fields are compared with the closure; the H1/H3 relation "
+          "events of every replay are validated against Ontology_Trace.tla (each inferred relation derivable by one rule, "
+          "closed at quiescence)."),
+    design_ref="DESIGN.md §4 C15",
+    note=("Trusted: TLC, the projection of instances to names. Single-valued fields are written once per subject; container "
+          "fields are compared as sets."),
+    technique="TLA+ closure vs incremental-inference model checked with TLC; behaviours replayed on real descriptor-managed fields; relation-event traces validated against the trace spec",
 )
 
 NOT_YET = "check not built yet in this build round (specified in DESIGN.md §4; will be claimed when its TLA+ module and binding exist)"
